@@ -6,7 +6,7 @@ from __future__ import annotations
 
 import itertools
 
-from ..absgrammar import alt, call, eof, grammar, named, opt, rule, seq, tok
+from ..absgrammar import alt, call, cut, eof, grammar, group, named, opt, rule, seq, star, tok
 from ..common import Check
 from ..pegcheck import conformance
 
@@ -30,6 +30,14 @@ def families(E, A, T):
                   (A, alt(seq(u, call(A)), call(T))), (T, n)],
         'rightpow': [('s', seq(call(E), eof())), (E, alt(seq(call(E), p, call(A)), call(A))),
                      (A, alt(seq(call(T), m, call(A)), call(T))), (T, n)],
+        # a cut scoped to an inline operator choice of a left-recursive alternative, plus a second left-recursive alternative:
+        # inputs that fail after the cut re-invoke the growing leader at its own position
+        'cut-op': [('s', seq(call(E), eof())), (E, alt(seq(call(E), group(alt(seq(p, cut()), seq(u, cut()))), call(T)), seq(call(E), m), call(T))),
+                   (T, n)],
+        'cut-op-noeof': [('s', call(E)), (E, alt(seq(call(E), group(alt(seq(p, cut()), seq(u, cut()))), call(T)), seq(call(E), m), call(T))), (T, n)],
+        # a cycle that passes through the element AFTER an inline optional / closure prefix (hidden behind a nullable non-call prefix)
+        'prefix-indirect': [('s', seq(call(A), eof())), (A, seq(opt(u), call(E))), (E, alt(seq(call(A), m), call(T))), (T, n)],
+        'closure-prefix-indirect': [('s', seq(call(A), eof())), (A, seq(star(u), call(E))), (E, alt(seq(call(A), m), call(T))), (T, n)],
     }
 
 
@@ -39,8 +47,13 @@ def universe(tier):
     names = ['a', 'e', 't', 'x']
     for (E, A, T) in itertools.permutations(names, 3):
         for fam, rules in families(E, A, T).items():
-            alpha = 'n+' + ('*' if fam in ('twolevel', 'rightpow', 'direct+mutual') else '') + ('-' if fam == 'unary' else '')
-            ml = maxlen if len(alpha) == 2 else maxlen - (1 if tier == 'quick' else 2)
+            if fam in ('prefix-indirect', 'closure-prefix-indirect'):
+                alpha = 'n-*'
+            elif fam.startswith('cut-op'):
+                alpha = 'n+-*'
+            else:
+                alpha = 'n+' + ('*' if fam in ('twolevel', 'rightpow', 'direct+mutual') else '') + ('-' if fam == 'unary' else '')
+            ml = maxlen if len(alpha) == 2 else maxlen - (1 if tier == 'quick' else 2) - (1 if len(alpha) == 4 else 0)
             texts = [list(t) for k in range(ml + 1) for t in itertools.product(alpha, repeat=k)]
             g = grammar(*[rule(nm, e) for nm, e in rules])
             items.append({'g': g, 'texts': texts, 'label': f'{fam}[{E},{A},{T}]', 'fam': fam, 'names': (E, A, T),
@@ -62,6 +75,12 @@ def classify(it, text, so, ir, why):
     # entered through another rule of the cycle (alias sorting before the recursive rule, or entry through the alias) the seed
     # is grown for the wrong rule and the parse fails or stops after one operator.
     if it['fam'] == 'aliased' and A < E and why.startswith('spec accepts, impl fail'):
+        return 'KF-C03-1'
+    # the same static leader seen through another shape: the cycle a = ['-'] e ; e = a '*' | t is entered, at the position after the
+    # prefix, through e, but seeds are grown for min(name) = a: depending on the names the parse stops early (spec accepts, engine
+    # fails) or the non-growing rule gives a shorter match that lets the caller continue (spec rejects, engine accepts)
+    if it['fam'] in ('prefix-indirect', 'closure-prefix-indirect') and A < E and \
+            (why.startswith('spec accepts, impl fail') or why.startswith('spec rejects, impl accepts') or why.startswith('value')):
         return 'KF-C03-1'
     return None
 
